@@ -196,6 +196,18 @@ def entities(scn, vec, mods):
     return v, ms
 
 
+KEEPALIVE = []      # entities deliberately kept alive across scenarios (a user keeps parts around)
+
+
+def keep_alive(scn):
+    """build the entities of a scenario, type them, and keep them referenced for the rest of the unit"""
+    vec, mods = plasmids(scn)
+    v, ms = entities(scn, vec, mods)
+    for e in [v] + ms:
+        e.is_valid()
+    KEEPALIVE.append((v, ms))
+
+
 def assemble_scenario(scn):
     vec, mods = plasmids(scn)
     v, ms = entities(scn, vec, mods)
